@@ -58,7 +58,7 @@ func main() {
 		}
 	}
 	if o.tier == "thorough" {
-		o.nsolvers = 2
+		o.nsolvers = 3
 	}
 	switch cmd {
 	case "check":
@@ -731,7 +731,7 @@ func report(o *Options, w *World, results []*FuncResult, jobs []*job, start time
 	cov := map[string]interface{}{
 		"obligations": nObl, "discharged": discharged, "obligation_instances": instances,
 		"checker_cmd": strings.Join(os.Args, " "),
-		"trusted_base": append([]string{"golang.org/x/tools/go/ssa v0.29.0", "govc SSA->SMT translation", "z3 5.1.0 (z3-new)", "cvc5 1.0"}, keys(trusted)...),
+		"trusted_base": append([]string{"golang.org/x/tools/go/ssa v0.29.0", "govc SSA->SMT translation", "z3 5.1.0 (z3-new)", "cvc5 1.0", "z3 4.8.12 (thorough tier and second-chance pass)"}, keys(trusted)...),
 		"functions_under_contract": funcs, "inlined_callees": keys(inlined), "by_backend": bySolver, "by_kind": kinds,
 		"solver_s": round3(solverTime), "cover_checks": covers, "cover_vacuous": len(coverBad), "samples": samples,
 		"known_findings_hit": knownHits, "solver_timeout_s": o.timeout, "decided_in_second_pass": retried,
